@@ -3,19 +3,20 @@
 # Confirms a seeded change in a scratch worktree: demo passes without / fails with the patch,
 # the pinned suite still passes with it, then runs the given checks against the patched tree.
 SD="$1"; IDS="$2"; TIER="${3:-quick}"
-WT=/tmp/wt-seedverify
+WT=/tmp/wt-seedverify-$$
+T=/tmp/seedverify-$$
 git -C /repo worktree remove --force $WT >/dev/null 2>&1
 git -C /repo worktree add --detach $WT HEAD >/dev/null 2>&1 || exit 2
 cd $WT
 cp "$SD/demo.py" $WT/demo.py
-/venv/bin/python -W ignore demo.py >/tmp/seed-demo0.out 2>&1; D0=$?
+/venv/bin/python -W ignore demo.py >$T-demo0.out 2>&1; D0=$?
 git apply "$SD/patch.diff" || { echo "PATCH DOES NOT APPLY"; git -C /repo worktree remove --force $WT; exit 2; }
-/venv/bin/python -W ignore demo.py >/tmp/seed-demo1.out 2>&1; D1=$?
+/venv/bin/python -W ignore demo.py >$T-demo1.out 2>&1; D1=$?
 rm -f $WT/demo.py
-VERIF_REPO=$WT /verif/tools/baseline_off.sh > /tmp/seed-base.out 2>&1; B=$?
-echo "demo_without_patch=$D0 demo_with_patch=$D1 suite_with_patch=$B ($(head -1 /tmp/seed-base.out))"
+VERIF_REPO=$WT /verif/tools/baseline_off.sh > $T-base.out 2>&1; B=$?
+echo "demo_without_patch=$D0 demo_with_patch=$D1 suite_with_patch=$B ($(head -1 $T-base.out))"
 for i in ${IDS//,/ }; do
-  VERIF_REPO=$WT VERIF_TIER=$TIER /verif/check $i $TIER > /tmp/seed-check-$i.out 2>&1; RC=$?
-  echo "check $i $TIER exit=$RC | $(grep -m2 'VIOLATION\|MACHINERY\|held' /tmp/seed-check-$i.out | cut -c1-220 | tr '\n' '|')"
+  VERIF_REPO=$WT VERIF_TIER=$TIER /verif/check $i $TIER > $T-check-$i.out 2>&1; RC=$?
+  echo "check $i $TIER exit=$RC | $(grep -m2 'VIOLATION\|MACHINERY\|held' $T-check-$i.out | cut -c1-220 | tr '\n' '|')"
 done
-cd /; git -C /repo worktree remove --force $WT
+cd /; git -C /repo worktree remove --force $WT; rm -f $T-*.out
